@@ -282,6 +282,8 @@ func checkChain(clause, what string, inLines, out []string, appended string, v *
 
 func loopShape(m reqModel) string {
 	switch {
+	case m.clConflict && !m.loopFirst:
+		return "framing-error-and-self-in-later-via-line"
 	case m.clConflict:
 		return "framing-error"
 	case !m.loopFirst:
@@ -397,7 +399,9 @@ func runInproc(c Case) kit.Verdict {
 		// Content-Length: untouched, or reduced to the one common value
 		if cl := m.in["Content-Length"]; len(cl) > 0 && !m.clConflict {
 			got := req.Header["Content-Length"]
-			if !equalStrings(got, cl) && !equalStrings(got, []string{m.clValue}) {
+			// with a Transfer-Encoding present the length is void (RFC 7230 3.3.3) and may be removed
+			teVoids := len(m.in["Transfer-Encoding"]) > 0 && len(got) == 0
+			if !equalStrings(got, cl) && !equalStrings(got, []string{m.clValue}) && !teVoids {
 				v.Addf("C14/end-to-end/request/content-length-changed", "Content-Length lines %q (all equal) became %q", cl, got)
 			}
 		} else if m.clConflict {
@@ -525,6 +529,11 @@ func genHeaders(t *rapid.T, o genOpts) []HL {
 				tok = rapid.SampledFrom(extPool).Draw(t, "tok_ext")
 			case 7, 8:
 				tok = rapid.SampledFrom(absentTok).Draw(t, "tok_absent")
+				if o.wire && !o.request && tok == "close" {
+					// net/http's response reader deletes the whole Connection header when it
+					// holds "close": the stack never sees the other tokens of such a response
+					tok = "keep-alive"
+				}
 			default:
 				tok = ""
 			}
